@@ -21,3 +21,8 @@ LEVEL_TEXT = ("Data-model part: proof. Dump-with-literal-zone part: exhaustive e
               "of every zone literal (finite), labelled bounded. Hence 'other'.")
 LEVEL_NOTE = ("Floats as reals; the text decoding of zone literals in the dumper is "
               "covered by enumeration, not proof.")
+
+
+def bounded(tier, seed, repo):
+    from . import text_bounded
+    return text_bounded.check_c06_zone_literals(tier, seed, repo)
